@@ -3,7 +3,7 @@ import Asn1cModel.Sexp
 import Asn1cModel.Impl.ConstraintCheckDom
 /-! Line-protocol ops of C08.
 
-  `c08 <Name> <type> | <value>`      → `ok` | `fail <why> <td-name>` | `selfloop`   (Impl.check)
+  `c08 <Name> <type> | <value>`      → `ok` | `fail <why> <td-name>`   (Impl.check)
   `c08sat <type> | <value>`          → `sat` | `unsat`                              (Spec.satisfies)
   `c08dom <Name> <type> | <value>`   → `in` | `out`                                 (guard domain of the theorem)
   `c08errbuf <errlen> <msg hex>`     → `<octets written, hex> <errlen afterwards>`  (Impl.ctfail)
@@ -92,7 +92,6 @@ def showWhy : Why → String
 def showVerdict : Verdict → String
   | .ok => "ok"
   | .fail n w => s!"fail {showWhy w} {n}"
-  | .selfloop => "selfloop"
 
 def showCmp : Cmp → String
   | .le c => s!"(x <= {c})" | .ge c => s!"(x >= {c})" | .eq c => s!"(x == {c})"
